@@ -12,7 +12,7 @@ MODEL = Slice(name="Model", module="Model", cfg={"quick": "mc/MC_Model_quick.cfg
 
 
 def _nchk(c: Dict[str, Any]):
-    return (c["k"], c.get("arg"), c.get("pred"), c.get("name"))
+    return (c["k"], c.get("arg"), c.get("pred"), c.get("name"), c.get("ina", True))
 
 
 def _ncomp(c: Dict[str, Any]):
